@@ -58,11 +58,13 @@ pub struct Ctx {
   pub emu: Emu,
   /// a global utility with constraints: `matches: <id>` means its rule, then its constraints, all or nothing
   pub global_cons: Option<(String, std::collections::BTreeMap<String, R>)>,
+  /// set when an inspected parent has several children labelled with the requested field (no verdict then)
+  pub ambiguous: std::cell::Cell<bool>,
 }
 
 impl Ctx {
   pub fn new(lang: SupportLang) -> Self {
-    Ctx { lang, utils: HashMap::new(), patterns: HashMap::new(), regexes: HashMap::new(), var_names: vec![], emu: Emu::default(), global_cons: None }
+    Ctx { lang, utils: HashMap::new(), patterns: HashMap::new(), regexes: HashMap::new(), var_names: vec![], emu: Emu::default(), global_cons: None, ambiguous: std::cell::Cell::new(false) }
   }
   pub fn prepare(&mut self, r: &R) -> Result<(), String> {
     let mut err = None;
@@ -303,18 +305,52 @@ fn eval_leaky<'a>(r: &R, n: &N<'a>, env: &Env<'a>, ctx: &Ctx, leaked: &mut Optio
       }
       Some(e)
     }
-    R::Inside(x, s, _) => {
+    R::Inside(x, s, f) => {
       let mut anc = vec![];
       let mut cur = n.parent();
       while let Some(p) = cur {
         cur = p.parent();
         anc.push(p);
       }
-      first_candidate(x, limited(anc, s, env, ctx), env, ctx)
+      let mut cands = limited(anc, s, env, ctx);
+      if let Some(f) = f {
+        // only ancestors whose `field` child is the node or lies on the path to it
+        let mut below = n.clone();
+        let mut kept = vec![];
+        for p in cands {
+          if p.field_children(f).count() > 1 {
+            ctx.ambiguous.set(true);
+          }
+          if p.field(f).map(|c| c.node_id() == below.node_id()).unwrap_or(false) {
+            kept.push(p.clone());
+          }
+          below = p;
+        }
+        cands = kept;
+      }
+      first_candidate(x, cands, env, ctx)
     }
-    R::Has(x, s, _) => {
+    R::Has(x, s, f) => {
       let mut c = vec![];
-      has_candidates(n, s, env, ctx, &mut c);
+      match f {
+        None => has_candidates(n, s, env, ctx, &mut c),
+        Some(f) => {
+          if n.field_children(f).count() > 1 {
+            ctx.ambiguous.set(true);
+          }
+          if let Some(fc) = n.field(f) {
+            c.push(fc.clone());
+            let deeper = match s {
+              Stop::Neighbor => false,
+              Stop::End => true,
+              Stop::Rule(st) => eval(st, &fc, &Env::default(), ctx).is_none(),
+            };
+            if deeper {
+              has_candidates(&fc, s, env, ctx, &mut c);
+            }
+          }
+        }
+      }
       first_candidate(x, c, env, ctx)
     }
     R::Precedes(x, s) => {
